@@ -1,9 +1,15 @@
 package checks
 
 import (
+	"fmt"
+	"os"
+	"os/exec"
+	"path/filepath"
 	"strconv"
 	"strings"
 	"time"
+
+	"go.etcd.io/bbolt/zverif/evid"
 
 	bolt "go.etcd.io/bbolt"
 	"go.etcd.io/bbolt/zverif/apix"
@@ -186,6 +192,34 @@ func C03(tier string) int {
 }
 
 func auxRace(tier string, cov map[string]interface{}) []string {
-	cov["aux_race_pass"] = "not run in this tier"
+	mod, ov := os.Getenv("VERIF_MODFILE"), os.Getenv("VERIF_OVERLAY")
+	if mod == "" || ov == "" {
+		cov["aux_race_pass"] = "not run (harness started without ./run)"
+		return nil
+	}
+	args := []string{"test", "-race", "-tags", "verif", "-modfile", mod, "-overlay", ov, "-count=1", "./racepass"}
+	cmd := exec.Command("go", args...)
+	cmd.Dir = filepath.Join(evid.Root(), "harness")
+	out, err := cmd.CombinedOutput()
+	text := string(out)
+	switch {
+	case strings.Contains(text, "DATA RACE"):
+		p := evid.Replay("C03", map[string]interface{}{"property": "C03", "engine": "racepass", "cmd": "cd harness && go " + strings.Join(args, " "), "output": lastN(text, 6000)})
+		cov["aux_race_pass"] = "DATA RACE reported by the free-running pass"
+		evid.Violation("C03", p)
+		fmt.Println("  the free-running -race pass reported a data race (see replay file)")
+		return []string{p}
+	case err != nil:
+		cov["aux_race_pass"] = "could not be run: " + lastN(text, 300)
+	default:
+		cov["aux_race_pass"] = "free-running go test -race over Update/View/Batch/Stats/Begin/Rollback/WriteTo/Close bodies, both backends: no race reported"
+	}
 	return nil
+}
+
+func lastN(s string, n int) string {
+	if len(s) > n {
+		return s[len(s)-n:]
+	}
+	return s
 }
